@@ -475,6 +475,21 @@ pub fn run(tier: &str) -> i32 {
     let mut rep = Report::new("C14", tier);
     let thorough = rep.thorough();
     let mut progs = space(thorough);
+    // entry names that differ only in case (WGSL is case sensitive; the upper-cased constant names collide, which is
+    // C01's listed finding - judged at model level only): every entry still needs a constant holding its exact name
+    for (ki, (a, b)) in [("shade", "Shade"), ("main", "MAIN"), ("vsMain", "vsmain"), ("x", "X")].into_iter().enumerate() {
+        for overrides in [false, true] {
+            let v = |n: &str, k: usize| VEntry { name: n.to_string(), params: V_PARAMS[k].to_vec() };
+            let f = |n: &str, shape: usize| FEntry { name: n.to_string(), shape };
+            let c = |n: &str, size: usize| CEntry { name: n.to_string(), size };
+            let o = overrides as u8;
+            progs.push(build(vec![], vec![f(a, 1), f(b, 4)], vec![], overrides, format!("case-collide|{ki}|ff|ov={o}")));
+            progs.push(build(vec![v(a, 1), v(b, 0)], vec![], vec![], overrides, format!("case-collide|{ki}|vv|ov={o}")));
+            progs.push(build(vec![v(a, 2)], vec![f(b, 2)], vec![], overrides, format!("case-collide|{ki}|vf|ov={o}")));
+            progs.push(build(vec![v(b, 0)], vec![f(a, 0)], vec![c("other", 1)], overrides, format!("case-collide|{ki}|fv+c|ov={o}")));
+            progs.push(build(vec![], vec![f(a, 1)], vec![c(b, 2)], overrides, format!("case-collide|{ki}|fc|ov={o}")));
+        }
+    }
     // module-scope declaration order is not significant: reversed / functions-first variants (every 4th in quick)
     let n0 = progs.len();
     for i in 0..n0 {
@@ -507,7 +522,7 @@ pub fn run(tier: &str) -> i32 {
         rep.transitions += (p.vs.len() + p.fs.len() + p.cs.len()) as u64;
         rep.evaluations += 1;
         if t.is_none() {
-            rep.filtered(&format!("generator not Ok: {}", v[0]));
+            rep.generation_failed(p.key.clone(), &v[0], &p.src, &cfg);
             continue;
         }
         rep.nontrivial.insert(hash64(&p.src));
@@ -527,7 +542,7 @@ pub fn run(tier: &str) -> i32 {
             // (a struct that is a vertex parameter and a fragment result at once is not emitted while its attribute table
             // is - C01's listed finding; such modules are judged at model level only)
             let both_roles = p.vs.iter().any(|v| v.params.iter().flatten().any(|s| p.fs.iter().any(|f| F_SHAPES[f.shape].0.trim_start_matches(" -> ") == *s)));
-            if both_roles {
+            if both_roles || p.key.starts_with("case-collide|") {
                 continue;
             }
             if i % stride == 0 || p.key.starts_with("multi") || p.key.contains("|f=3|") || p.key.contains("|f=6|") || p.key.contains("|f=8|") || p.key.contains("|f=9|") || p.key.contains("|f=10|") {
